@@ -205,6 +205,9 @@ type vlog struct {
 	ctr     atomic.Uint64
 	nCyclic atomic.Int32
 
+	mainGid  atomic.Int64 // the goroutine that calls Run
+	ctlAt    func(string, ...any)
+	ctlStats [3]int   // controlled runs: releases, runtime snapshots taken, snapshots that showed the build not settled
 	policy   string   // "" = free-running with jitter; otherwise the policy of the controlled scheduler (zz_verif_c05_ctl_test.go)
 	schedule []string // controlled runs: the goroutines released, in order ("label@hook point")
 }
@@ -273,6 +276,10 @@ func vcopyArgs(args []any) []any {
 var vInsideCS = map[string]bool{"start.run": true, "start.noop": true, "run.finished": true, "gate.enter": true, "gate.exit": true}
 
 func (v *vlog) at(point string, args ...any) {
+	if v.ctlAt != nil { // controlled scheduler: the fake target's own events are logged (and parked) like the runner's hooks
+		v.ctlAt(point, args...)
+		return
+	}
 	gid := vgid()
 	switch point {
 	case "publish.pre", "walk.pre", "clear.pre":
@@ -583,13 +590,20 @@ type vrun struct {
 	profile int
 	procs   int
 	seed    uint64
+	policy  string // "" = free-running with jitter; otherwise a policy of the controlled scheduler (needs zz_verif_c05_ctl_test.go)
 }
+
+// vctlNew is set by zz_verif_c05_ctl_test.go: the controlled scheduler.  It returns the hook handler to install and the
+// function that drives the run: it releases one parked goroutine at a time until Run has returned and every goroutine has
+// ended (ok), or until no goroutine of the build can run any more (a verdict; res.blocked / v.schedule describe it).
+var vctlNew func(r *vrun, v *vlog) (handler func(string, ...any), drive func(done chan error, res *vresult) (runErr error, verdict string))
 
 type vresult struct {
 	hung        bool
 	stuck       bool // Run returned but goroutines never became quiescent
 	runErr      string
 	capacityEnd int
+	verdict     string   // controlled scheduler: why the run was given up ("deadlock: ...", "step budget ...")
 	blocked     []string // after a hang: the goroutines of the build and where each is blocked (from the runtime's stack dump)
 }
 
@@ -617,13 +631,21 @@ func vexec(r *vrun, timeout time.Duration) (*vworld, *vresult) {
 	res := &vresult{capacityEnd: -1}
 	old := runtime.GOMAXPROCS(r.procs)
 	defer runtime.GOMAXPROCS(old)
-	verifhook.SetHandler(v.at)
+	handler := v.at
+	var drive func(done chan error, res *vresult) (error, string)
+	if r.policy != "" {
+		v.policy = r.policy
+		handler, drive = vctlNew(r, v)
+		v.ctlAt = handler
+	}
+	verifhook.SetHandler(handler)
 	defer verifhook.SetHandler(nil)
 
 	root := strconv.Itoa(g.root)
 	var rn *runner
 	done := make(chan error, 1)
 	go func() {
+		v.mainGid.Store(vgid())
 		if r.viaRun {
 			done <- Run(w, root)
 			return
@@ -637,12 +659,20 @@ func vexec(r *vrun, timeout time.Duration) (*vworld, *vresult) {
 		done <- err
 	}()
 	var runErr error
-	select {
-	case runErr = <-done:
-	case <-time.After(timeout):
-		res.hung = true
-		res.blocked = vblockedReport()
-		return w, res
+	if drive != nil {
+		var verdict string
+		if runErr, verdict = drive(done, res); verdict != "" {
+			res.hung, res.verdict = true, verdict
+			return w, res
+		}
+	} else {
+		select {
+		case runErr = <-done:
+		case <-time.After(timeout):
+			res.hung = true
+			res.blocked = vblockedReport()
+			return w, res
+		}
 	}
 	res.runErr = vkindOf(runErr)
 	v.at("main.result", runErr == nil)
@@ -789,7 +819,7 @@ func vjsonRun(r *vrun, w *vworld, res *vresult) []byte {
 		"profile": vprofiles[r.profile].name, "procs": r.procs, "via_run": r.viaRun,
 		"hung": res.hung, "stuck": res.stuck, "run_result": res.runErr, "capacity_end": res.capacityEnd,
 		"max_inside": w.maxInside.Load(), "blocked": res.blocked, "log_mutex_held": !locked,
-		"schedule": w.v.schedule, "controlled": w.v.policy,
+		"schedule": w.v.schedule, "controlled": w.v.policy, "verdict": res.verdict, "ctl_stats": w.v.ctlStats, "seed": strconv.FormatUint(r.seed, 10),
 		"events": evs,
 		"obs": map[string]any{"load": cnt(w.load), "eval": cnt(w.eval), "body": cnt(w.body), "order": order,
 			"outcomes": outcomes, "results": results, "first_failed": firstFailed},
@@ -910,7 +940,11 @@ func TestVerifRunner(t *testing.T) {
 	if vextraGraphs != nil {
 		for i, g := range vextraGraphs() {
 			add(g, limits[i%len(limits)], false)
-			add(g, 1+(i+2)%3, i%4 == 0)
+			if i%4 == 0 {
+				add(g, runtime.NumCPU(), true)
+			} else {
+				add(g, 1+(i+2)%3, false)
+			}
 		}
 	}
 	for i := 0; i < nrand; i++ {
